@@ -5,20 +5,20 @@ comparison, the pending list is sorted by true threshold, and `check` fires exac
 whose threshold is EXCEEDED by the accumulated weight. -/
 namespace PPLV.Watchdog
 
-/-- `Weightwatch_Traits::less_than` is `≤` on values less than 2^63 apart -/
+/-- `Weightwatch_Traits::less_than` is `<` on values less than 2^63 apart -/
 theorem wLess_iff (a b : Nat) (h1 : a < b + H63) (h2 : b < a + H63) :
-    wLess (a % W64) (b % W64) = true ↔ a ≤ b := by
+    wLess (a % W64) (b % W64) = true ↔ a < b := by
   unfold wLess W64 H63 at *
-  simp only [decide_eq_true_eq]
+  simp only [Bool.and_eq_true, decide_eq_true_eq]
   omega
 
 theorem wLess_false_iff (a b : Nat) (h1 : a < b + H63) (h2 : b < a + H63) :
-    wLess (a % W64) (b % W64) = false ↔ b < a := by
+    wLess (a % W64) (b % W64) = false ↔ b ≤ a := by
   have := wLess_iff a b h1 h2
   cases h : wLess (a % W64) (b % W64)
   · simp only [true_iff]
     rw [h] at this
-    have : ¬ a ≤ b := fun hh => by simpa using this.mpr hh
+    have : ¬ a < b := fun hh => by simpa using this.mpr hh
     omega
   · simp only [Bool.true_eq_false, false_iff]
     have := this.mp h; omega
@@ -67,7 +67,7 @@ theorem wSorted_insert {x : WEv} {l : List WEv} (hx : x.thr = x.gThr % W64)
       refine ⟨?_, ih'⟩
       intro a ha
       rcases mem_wInsert.mp ha with h | h
-      · subst h; exact this
+      · subst h; omega
       · exact hs.1 a h
     · rename_i hlt
       have := (wLess_false_iff e.gThr x.gThr hwe.1 hwe.2).mp (by simpa using hlt)
@@ -76,7 +76,7 @@ theorem wSorted_insert {x : WEv} {l : List WEv} (hx : x.thr = x.gThr % W64)
       refine ⟨?_, hs.1, hs.2⟩
       intro a ha
       rcases List.mem_cons.mp ha with h | h
-      · subst h; omega
+      · subst h; exact this
       · have := hs.1 a h; omega
 
 theorem wErase_sublist (id : Nat) (l : List WEv) : (wErase id l).Sublist l := by
@@ -97,10 +97,10 @@ theorem wTakeDue_append (cur : Nat) (l : List WEv) : (wTakeDue cur l).1 ++ (wTak
     · simp [ih]
     · simp
 
-/-- in the window, on a sorted list: the fired prefix is exactly the exceeded thresholds -/
+/-- in the window, on a sorted list: the fired prefix is exactly the reached thresholds -/
 theorem wTakeDue_spec (gW : Nat) (l : List WEv) (hl : ∀ e ∈ l, e.thr = e.gThr % W64)
     (hw : ∀ e ∈ l, e.gThr < gW + H63 ∧ gW < e.gThr + H63) (hs : WSorted l) :
-    (∀ e ∈ (wTakeDue (gW % W64) l).1, e.gThr < gW) ∧ (∀ e ∈ (wTakeDue (gW % W64) l).2, gW ≤ e.gThr) := by
+    (∀ e ∈ (wTakeDue (gW % W64) l).1, e.gThr ≤ gW) ∧ (∀ e ∈ (wTakeDue (gW % W64) l).2, gW < e.gThr) := by
   induction l with
   | nil => simp [wTakeDue]
   | cons e r ih =>
@@ -130,11 +130,11 @@ theorem wTakeDue_spec (gW : Nat) (l : List WEv) (hl : ∀ e ∈ l, e.thr = e.gTh
 
 structure WInv (σ : WSt) : Prop where
   wq : σ.weight = σ.gWeight % W64
-  thr : ∀ e ∈ σ.pending, e.thr = e.gThr % W64 ∧ σ.gLast ≤ e.gThr
+  thr : ∀ e ∈ σ.pending, e.thr = e.gThr % W64 ∧ σ.gLast < e.gThr
   last : σ.gLast ≤ σ.gWeight
   sorted : WSorted σ.pending
   fn : σ.checkFn = false → σ.pending = []
-  fired : ∀ id g p c, WEvent.fired id g p c ∈ σ.log → p ≤ g ∧ g < c
+  fired : ∀ id g p c, WEvent.fired id g p c ∈ σ.log → p < g ∧ g ≤ c
 
 theorem winv_init (w0 : Nat) : WInv (wInit w0) := by
   constructor <;> simp [wInit, WSorted]
@@ -177,28 +177,45 @@ theorem winv_exec {σ : WSt} (h : σ.lapped = true ∨ WInv σ) (op : WOp) :
             hW _ (by simp) _ (by simp)
           have hthr : (σ.weight + delta % W64) % W64 = (σ.gWeight + delta % W64) % W64 := by
             rw [h.wq]; unfold W64; omega
-          have hacc : wLess σ.weight ((σ.weight + delta % W64) % W64) = true := by
+          have hacc : wLess σ.weight ((σ.weight + delta % W64) % W64) = true ↔ 0 < delta % W64 := by
             rw [hthr, h.wq]
-            exact (wLess_iff σ.gWeight (σ.gWeight + delta % W64) (by unfold H63; omega) hg1).mpr (by omega)
-          simp only [hacc, Bool.not_true, Bool.false_eq_true, if_false]
-          constructor
-          · exact h.wq
-          · intro e he
-            rcases mem_wInsert.mp he with hh | hh
-            · subst hh
-              exact ⟨hthr, by have := h.last; show σ.gLast ≤ σ.gWeight + delta % W64; omega⟩
-            · exact h.thr e hh
-          · exact h.last
-          · refine wSorted_insert hthr (fun e he => (h.thr e he).1) ?_ h.sorted
-            intro e he
-            have hm : e.gThr ∈ σ.gWeight :: ([σ.gWeight + delta % W64] ++ σ.pending.map (·.gThr)) := by
-              simp only [List.mem_cons, List.mem_append, List.mem_map]
-              exact Or.inr (Or.inr ⟨e, he, rfl⟩)
-            exact ⟨hW _ hm _ (by simp), hW _ (by simp) _ hm⟩
-          · intro hh; simp at hh
-          · intro i g p c hh
-            have : WEvent.fired i g p c ∈ σ.log := by simpa using hh
-            exact h.fired i g p c this
+            rw [wLess_iff σ.gWeight (σ.gWeight + delta % W64) (by unfold H63; omega) hg1]
+            omega
+          split
+          · -- "threshold already reached": a zero delta
+            constructor
+            · exact h.wq
+            · exact h.thr
+            · exact h.last
+            · exact h.sorted
+            · exact h.fn
+            · intro i g p c hh
+              have : WEvent.fired i g p c ∈ σ.log := by simpa using hh
+              exact h.fired i g p c this
+          · rename_i hrej
+            have hpos : 0 < delta % W64 := by
+              apply hacc.mp
+              cases hw : wLess σ.weight ((σ.weight + delta % W64) % W64)
+              · rw [hw] at hrej; simp at hrej
+              · rfl
+            constructor
+            · exact h.wq
+            · intro e he
+              rcases mem_wInsert.mp he with hh | hh
+              · subst hh
+                exact ⟨hthr, by have := h.last; show σ.gLast < σ.gWeight + delta % W64; omega⟩
+              · exact h.thr e hh
+            · exact h.last
+            · refine wSorted_insert hthr (fun e he => (h.thr e he).1) ?_ h.sorted
+              intro e he
+              have hm : e.gThr ∈ σ.gWeight :: ([σ.gWeight + delta % W64] ++ σ.pending.map (·.gThr)) := by
+                simp only [List.mem_cons, List.mem_append, List.mem_map]
+                exact Or.inr (Or.inr ⟨e, he, rfl⟩)
+              exact ⟨hW _ hm _ (by simp), hW _ (by simp) _ hm⟩
+            · intro hh; simp at hh
+            · intro i g p c hh
+              have : WEvent.fired i g p c ∈ σ.log := by simpa using hh
+              exact h.fired i g p c this
         · left
           have : windowedB σ [σ.gWeight + delta % W64] = false := by simpa using hwin
           split <;> simp [this]
